@@ -14,7 +14,7 @@ class MessageMetaAttributes(object):
         self.timestamp = int(timestamp) if timestamp else None
         self.participant = participant
         self.offline = None if offline is None else offline in ("1", True)
-        self.retry = int(retry) if retry else None
+        self.retry = int(retry) if retry not in (None, "") else None
 
     @staticmethod
     def from_message_protocoltreenode(node):
